@@ -91,7 +91,7 @@ def expected_events(frames, inflate=None, failfast=True, client_closed_at=None):
     return exp, None, optional, saw_close
 
 
-def judge(run, frames, inflate=None, negotiated=False, auto_pong=True, check_wire=True):
+def judge(run, frames, inflate=None, negotiated=False, auto_pong=True, check_wire=True, auto_pings=False):
     """Compare a silent-application run against the reference. Returns list of (kind, message)."""
     problems = []
     w = run.world
@@ -159,6 +159,19 @@ def judge(run, frames, inflate=None, negotiated=False, auto_pong=True, check_wir
                 elif o[0] == 'closing':
                     want_wire.append((ref_ws.CLOSE, ref_ws.close_payload(o[1], o[2])))
             got_wire = [(cf.opcode, cf.payload) for cf in cframes]
+            if auto_pings:
+                # automatic Pings (empty payload) written before the violation was received are legitimate; drop them here --
+                # the event-order rule below still catches any written afterwards
+                pe0 = next((e.idx for e in w.events if e.event.name == 'protocol_error'), 10 ** 9)
+                early = b''.join(x.data for x in w.writes[1:] if x.ev <= pe0)
+                n_early_pings = sum(1 for f in ref_ws.decode_client_stream(early)[0] if f.opcode == ref_ws.PING and not f.payload)
+                kept = []
+                for fr in got_wire:
+                    if fr == (ref_ws.PING, b'') and n_early_pings > 0:
+                        n_early_pings -= 1
+                        continue
+                    kept.append(fr)
+                got_wire = kept
             opt_pongs = [(ref_ws.PONG, exp[i][1]) for i in optional if exp[i][0] == 'ping'] if auto_pong else []
             if stop is not None:
                 # after the violation: at most one Close and nothing else
@@ -170,6 +183,16 @@ def judge(run, frames, inflate=None, negotiated=False, auto_pong=True, check_wir
                     problems.append(('writes-after-violation', 'client wrote %s after the violation' % (_w(tailw),)))
                 if saw_close and any(op == ref_ws.CLOSE for op, _ in tailw):
                     problems.append(('second-close', 'two Close frames written'))
+                # independent of the reference's pong bookkeeping: once the ProtocolError event has been yielded the
+                # violation has been received -- from then on at most one Close frame may be written, nothing else
+                pe = next((e.idx for e in w.events if e.event.name == 'protocol_error'), None)
+                if pe is not None:
+                    late = b''.join(x.data for x in w.writes if x.ev > pe)
+                    lf, _g = ref_ws.decode_client_stream(late)
+                    if len(lf) > 1 or any(f.opcode != ref_ws.CLOSE for f in lf):
+                        if not any(k == 'writes-after-violation' for k, _ in problems):
+                            problems.append(('writes-after-violation', 'after the ProtocolError event the client wrote %s'
+                                             % _w([(f.opcode, f.payload) for f in lf])))
             else:
                 if [x for x in got_wire if x not in opt_pongs] != want_wire and got_wire != want_wire:
                     problems.append(('wire-differs', 'client frames: expected %s got %s' % (_w(want_wire), _w(got_wire))))
